@@ -1,4 +1,8 @@
 """C20 -- key naming modes and config-file key names are mutually consistent."""
+import json
+import os
+import sys
+
 from curtsies import events
 from curtsies.configfile_keynames import keymap, SPECIALS
 
@@ -22,7 +26,9 @@ RULE = ("(a) events.get_key in the three naming modes side by side on the decode
         "(random bytes, random token streams, table x table samples) decoded by a real Input in the three modes: same "
         "cuts, bytes naming = the bytes, names are that mode's names; (c) keymap[name] for EVERY valid configuration "
         "name (C-a..C-z, M-<each printable non-space ASCII character>, F1..F12, every key of SPECIALS), the unbound key "
-        "'' and a catalogue of malformed names. non-trivial = non-empty input; distinct = distinct input")
+        "'' and a catalogue of malformed names; (d) both key tables as a fresh interpreter builds them under 15 other values "
+        "of TERM (rxvt, screen, tmux, linux, vt100, dumb, unset, ...): the same tables as the ones the theorems are about, and "
+        "every curses-named sequence has a curtsies name. non-trivial = non-empty input; distinct = distinct input")
 GENERATORS = ("gen/gen_pure.py",)
 PURE_HELPERS = ('_key_name',)
 TRUSTED = [
@@ -78,11 +84,41 @@ def run(inp):
         if not isinstance(v, tuple) or not all(isinstance(x, str) for x in v):
             return ["raise", "OtherError"]
         return ["ok", list(v)]
+    if kind == "tables":
+        return _tables_under(inp[1])
     raise ValueError(kind)
+
+
+TERMS = ["rxvt", "rxvt-unicode-256color", "screen", "screen-256color", "tmux-256color", "linux", "vt100", "xterm",
+         "xterm-kitty", "alacritty", "Eterm", "cygwin", "ansi", "dumb", ""]
+_DUMP = ("import json, curtsies.events as e\n"
+         "t = lambda d: sorted([list(k), v] for k, v in d.items())\n"
+         "print(json.dumps([t(e.CURTSIES_NAMES), t(e.CURSES_NAMES)]))\n")
+
+
+def _tables_under(term):
+    """both key tables as a fresh interpreter started with TERM=term (unset for "") builds them"""
+    import subprocess
+    env = dict(os.environ, PYTHONPATH=os.environ.get("CURTSIES_REPO", "/repo"))
+    env.pop("TERM", None)
+    if term:
+        env["TERM"] = term
+    r = subprocess.run([sys.executable, "-c", _DUMP], env=env, capture_output=True, text=True, timeout=120)
+    if r.returncode != 0:
+        return ["raise", "OtherError"]
+    return ["ok"] + json.loads(r.stdout.strip().splitlines()[-1])
+
+
+def _coq_table(rows):
+    return coq_list(["(%s, %s)" % (coq_bytes(k), coq_str(v)) for k, v in rows])
 
 
 def to_coq(inp, out):
     kind = inp[0]
+    if kind == "tables":
+        if out[0] != "ok":           # the library does not even import under this TERM
+            return "C20.CTables %s [] []" % coq_str(inp[1])
+        return "C20.CTables %s %s %s" % (coq_str(inp[1]), _coq_table(out[1]), _coq_table(out[2]))
     if kind == "modes":
         return "C20.CModes %s %s %s (%s) (%s) (%s)" % (
             COQ_ENC[inp[1]], "true" if inp[2] else "false", coq_bytes(inp[3]),
@@ -102,6 +138,8 @@ def to_json_input(inp):
         return {"kind": "modes", "enc": inp[1], "full": inp[2], "bytes": list(inp[3])}
     if inp[0] == "stream":
         return {"kind": "stream", "enc": inp[1], "bytes": list(inp[2])}
+    if inp[0] == "tables":
+        return {"kind": "tables", "TERM": inp[1]}
     return {"kind": "keymap", "name": inp[1]}
 
 
@@ -114,6 +152,8 @@ def from_json(obj):
         return ("modes", obj["enc"], bool(obj["full"]), tuple(obj["bytes"]))
     if obj["kind"] == "stream":
         return ("stream", obj["enc"], tuple(obj["bytes"]))
+    if obj["kind"] == "tables":
+        return ("tables", obj["TERM"])
     return ("keymap", obj["name"])
 
 
@@ -122,11 +162,14 @@ def key(inp):
 
 
 def nontrivial(inp, out):
-    return len(inp[-1]) > 0
+    return inp[0] == "tables" or len(inp[-1]) > 0
 
 
 def generate(rng, tier):
     thorough = tier == "thorough"
+    # (d) the tables themselves, as built under other terminal types
+    for t in TERMS:
+        yield ("tables", t)
     # (c) config names: always all of them
     yield ("keymap", "")
     for n in VALID:
@@ -175,6 +218,9 @@ def generate(rng, tier):
 
 def stats(inp, out):
     yield "kind=%s" % inp[0]
+    if inp[0] == "tables":
+        yield "tables:TERM=%s" % (inp[1] or "(unset)")
+        return
     if inp[0] == "keymap":
         yield "keymap:%s" % ("valid" if inp[1] in VALID else "unbound" if inp[1] == "" else "malformed")
         yield "keymap:->%s" % (("tuple%d" % len(out[1])) if out[0] == "ok" else out[1])
@@ -191,6 +237,8 @@ def shrink(inp):
         n = inp[1]
         for i in range(len(n)):
             yield ("keymap", n[:i] + n[i + 1:])
+    elif inp[0] == "tables":
+        return
     elif inp[0] == "modes":
         s = inp[3]
         if len(s) > 1:
